@@ -157,15 +157,25 @@ def _flatten_previous(op, x, testers, context,
     # (if child is terminal)
     # added benefit: shares some history vars among subformulas
     strong = (op == '--X')
-    propagate = (
-        len(x) == 1)
+    # only a variable has a history variable `var_prevN`:
+    # a constant differs from its own "previous" in the first state
+    propagate = isinstance(x, Nodes.Var)
+    if propagate:
+        # the weak and the strong "previous" of the same variable
+        # differ in the first state, so they cannot share a tester:
+        # whichever comes second is given a fresh `_aux` tester below
+        var_prev = f'{x.value}_prev{previous + 1}'
+        init, _ = _make_tester_for_previous(
+            var_prev, x.value, context, strong)
+        propagate = (
+            var_prev not in testers or
+            testers[var_prev]['init'] == init)
     if propagate:
         previous += 1
         return x.flatten(testers=testers, context=context,
                          previous=previous, strong=strong, *arg, **kw)
     # create tester here
     assert context == 'bool', context
-    assert len(x) > 1, 'operand is an operator'
     expr = x.flatten(testers=testers, context=context, *arg, **kw)
     # bottom-up counting is safe
     # `len` *must* be called after `flatten`
